@@ -70,6 +70,9 @@ def run(rep, work, tier, seed, props, replay=None):
                    for i, (l, dt) in enumerate(itertools.product(
                        ["conv", "max_pool", "batchnorm", "gru", "softmax", "logsoftmax", "sigmoid_etc", "softmax_crossentropy", "focal", "hinge", "margin_ranking", "nll"],
                        ["float64", "float32", "float16"]))]
+    # mixed precision inside one layer (e.g. float32 biases with float64 weights): every gradient still has ITS tensor's dtype
+    layer_tasks += [{"kind": "layer", "layer": l, "dtype": "float64", "seed": 100 + i, "pad": i % 2, "mixed": mx}
+                    for i, (l, mx) in enumerate(itertools.product(["conv", "batchnorm", "gru", "margin_ranking"], [1, 2]))]
     if replay is not None and "task" in replay:
         seed_tasks, red_tasks, layer_tasks = [], [], []
         {"seed": seed_tasks, "reduce": red_tasks, "layer": layer_tasks}[replay["task"]["kind"]].append(replay["task"])
